@@ -158,12 +158,12 @@ def form(name, bodies, ctr):
     raise ValueError(name)
 
 
-def program(outer, nest_at, inner, rot, reg_hole=0):
+def program(outer, nest_at, inner, rot, reg_hole=0, with_reg=True):
     """outer form; hole `nest_at` (or None) additionally contains the form `inner` between its prints"""
     ctr = _Ctr(rot, trot=reg_hole)      # the design index also rotates the conditions and the Assert / Cover / Assume tests
     bodies = []
     for h in range(HOLES[outer]):
-        body = hole(ctr, reg=(h == reg_hole % HOLES[outer]))
+        body = hole(ctr, reg=(with_reg and h == reg_hole % HOLES[outer]))
         if nest_at == h:
             inner_bodies = [hole(ctr, reg=False) for _ in range(HOLES[inner])]
             body = body[:2] + form(inner, inner_bodies, ctr) + body[2:]
@@ -188,3 +188,11 @@ def program_descs(tier):
                 for inner in inner_forms:
                     out.append((outer, h, inner, rot))
     return out
+
+
+# asynchronous-reset designs whose Print / Assert / Assume / Cover statements sit in a fragment WITHOUT any
+# resettable register: (name, statements in a separate submodule?, reset_less register k driven by the statements'
+# fragment?, resettable registers cnt / sg driven in the top module?)
+MONITOR_VARIANTS = [("sub", True, False, True), ("sub_rl", True, True, True), ("flat_noreg", False, False, False),
+                    ("flat_rl", False, True, False)]
+MONITOR_FORMS = ["bare", "ifelse", "sw_default"]
